@@ -246,7 +246,14 @@ def run(prog, tier, extra=None):
         raise LookupError("is_golden_ticket_count_valid_ not found")
     consts = set()
     literal_cmp = []
+    # the rule's arithmetic may live in the walker or in a function it calls (`golden_ticket_count_verdict(found, depth, ..)`)
+    gt_family = list(gt)
     for b in gt:
+        for _, t in b.calls():
+            h = prog.bodies.get(t.get("res") or t.get("callee") or "")
+            if h is not None and not h.is_promoted and h.path.startswith(CORE + "consensus::blockchain::") and h not in gt_family and "::tests::" not in h.path:
+                gt_family.append(h)
+    for b in gt_family:
         for blk in b.blocks:
             for st in blk["s"]:
                 if st[0] != "=":
@@ -264,7 +271,7 @@ def run(prog, tier, extra=None):
     if {"MIN_GOLDEN_TICKETS_NUMERATOR", "MIN_GOLDEN_TICKETS_DENOMINATOR"} <= consts:
         res.sample({"rule": R3, "constants_read": sorted(consts), "values": {"NUMERATOR": prog.const("MIN_GOLDEN_TICKETS_NUMERATOR"), "DENOMINATOR": prog.const("MIN_GOLDEN_TICKETS_DENOMINATOR")}})
     # the found-vs-required comparison gates the false verdict
-    for b in gt:
+    for b in gt_family:
         chg = Chaser(b)
         cm = gate.order_edges(b, chg, lambda a, c: a[0] == "local" and c[0] == "local")
         if cm:
@@ -367,7 +374,7 @@ def run(prog, tier, extra=None):
     for pth, pts in sorted(chain.items()):
         b = prog.bodies[pth]
         res.instance(R6)
-        f6 = Explorer(b).explore(0, blocked=pts, accept=gate.make_accept(b, return_true=True))
+        f6 = None if 0 in pts else Explorer(b).explore(0, blocked=pts, accept=gate.make_accept(b, return_true=True))
         name = pth.replace(CORE, "").split("::<", 1)[0]
         if f6:
             kind, path = sorted(f6.items())[0]
